@@ -7,6 +7,7 @@ package main
 import (
 	"bytes"
 	"context"
+	"encoding/binary"
 	"errors"
 	"fmt"
 	"github.com/tsuna/gohbase/zk"
@@ -56,6 +57,9 @@ func buildCluster(rng *RNG) *simCluster {
 	c.addRegion([]byte("ns"), []byte("xt"), nil, nil, pick())
 	// another namespace of the same length with the same qualifier
 	c.addRegion([]byte("nt"), []byte("t"), nil, nil, pick())
+	// namespaces whose names are a beginning of, and begin with, the default namespace's name
+	c.addRegion([]byte("def"), []byte("t"), nil, nil, simAddrs[0])
+	c.addRegion([]byte("default2"), []byte("t"), nil, nil, simAddrs[len(simAddrs)-1])
 	return c
 }
 
@@ -126,7 +130,7 @@ func seqScenario(rng *RNG, model string) string {
 	defer sc.cl.Close()
 	var steps []string
 	nSteps := 6 + rng.Intn(14)
-	tables := []string{"t", "t", "t", "t2", "ns:t", "ns:xt", "nt:t"}
+	tables := []string{"t", "t", "t", "t2", "ns:t", "ns:xt", "nt:t", "def:t", "default2:t"}
 	mark := func() int { c.mu.Lock(); defer c.mu.Unlock(); return len(c.serves) }
 	for i := 0; i < nSteps; i++ {
 		if rng.Intn(3) == 0 {
@@ -324,9 +328,34 @@ func seqScenario(rng *RNG, model string) string {
 			g, _ := hrpc.NewGet(ctx, []byte(table), key)
 			_, err = sc.cl.Get(g)
 		} else {
-			kind = "put"
-			p, _ := hrpc.NewPut(ctx, []byte(table), key, map[string]map[string][]byte{"f": {"q": []byte("v")}})
-			_, err = sc.cl.Put(p)
+			// every kind of mutation in turn (no draw: the scripts stay what they were)
+			vals := map[string]map[string][]byte{"f": {"q": []byte("v")}}
+			switch len(steps) % 5 {
+			case 0:
+				kind = "put"
+				p, _ := hrpc.NewPut(ctx, []byte(table), key, vals)
+				_, err = sc.cl.Put(p)
+			case 1:
+				kind = "cas"
+				p, _ := hrpc.NewPut(ctx, []byte(table), key, vals)
+				_, err = sc.cl.CheckAndPut(p, "f", "q", []byte("old"))
+			case 2:
+				kind = "del"
+				p, _ := hrpc.NewDel(ctx, []byte(table), key, vals)
+				_, err = sc.cl.Delete(p)
+			case 3:
+				kind = "app"
+				p, _ := hrpc.NewApp(ctx, []byte(table), key, vals)
+				_, err = sc.cl.Append(p)
+			default:
+				kind = "inc"
+				p, _ := hrpc.NewInc(ctx, []byte(table), key, map[string]map[string][]byte{"f": {"q": {0, 0, 0, 0, 0, 0, 0, 1}}})
+				var got int64
+				got, err = sc.cl.Increment(p)
+				if want := int64(binary.BigEndian.Uint64(simCounterValue(key))); err == nil && got != want {
+					err = fmt.Errorf("increment delivered %d, the server answered %d", got, want)
+				}
+			}
 		}
 		cancel()
 		settle()
@@ -2234,6 +2263,11 @@ func init() {
 			for i := shard; i < 8; i += nsh {
 				emit(riMarshalScenario(NewRNG(seed, fmt.Sprintf("rim-%d", i))))
 			}
+			for i := shard; i < 6; i += nsh {
+				for _, l := range debugStateScenario(NewRNG(seed, fmt.Sprintf("dbg-%d", i))) {
+					emit(l)
+				}
+			}
 			if raceChild {
 				// scans that renew their lease (a goroutine of the client running next to the caller's
 				// Next / Close): only their memory accesses matter here, the rows are judged by C06/C14
@@ -2292,6 +2326,8 @@ func init() {
 		jobs = append(jobs, func() string { return busyQueueScenario("cancel") }, func() string { return busyQueueScenario("deadline") })
 		jobs = append(jobs, func() string { return busyQueueScenarioKind("cancel", true) }, func() string { return busyQueueScenarioKind("deadline", true) })
 		jobs = append(jobs, func() string { return batchBusyQueueScenario("cancel") }, func() string { return batchBusyQueueScenario("deadline") })
+		// table administration over the master connection: request, then state polls with back-off
+		jobs = append(jobs, adminWaitJobs(tier)...)
 		runSharded("C13", tier, seed, out, 8, func(shard, nsh int, emit func(string)) {
 			for i := shard; i < len(jobs); i += nsh {
 				emit(jobs[i]())
@@ -2304,6 +2340,7 @@ func init() {
 		jobs = append(jobs, closeAfterReplacedRegion)
 		jobs = append(jobs, closeDuringDialReal)
 		jobs = append(jobs, closeWithRenewingScan)
+		jobs = append(jobs, closeZooKeeperDownReal)
 		for _, st := range append(append([]waitState{}, waitStates...), closeOnlyStates...) {
 			st := st
 			jobs = append(jobs, func() string { return closeScenario(&st) })
